@@ -613,6 +613,11 @@ fn sut_server_config_with(cfg: &Value, id: Identity) -> ServerConfig {
         Some(ms) => b.keep_alive_interval(Some(Duration::from_millis(ms))),
         None => b,
     };
+    // the last setting wins: switched on, then off again
+    let b = match cfg.get("keepalive_then_off_ms").and_then(|v| v.as_u64()) {
+        Some(ms) => b.keep_alive_interval(Some(Duration::from_millis(ms))).keep_alive_interval(None),
+        None => b,
+    };
     b.build()
 }
 
@@ -641,6 +646,10 @@ fn sut_client_config_with(cfg: &Value, server: SocketAddr, server_hash: Option<w
         .expect("idle");
     let b = match cfg.get("keepalive_ms").and_then(|v| v.as_u64()) {
         Some(ms) => b.keep_alive_interval(Some(Duration::from_millis(ms))),
+        None => b,
+    };
+    let b = match cfg.get("keepalive_then_off_ms").and_then(|v| v.as_u64()) {
+        Some(ms) => b.keep_alive_interval(Some(Duration::from_millis(ms))).keep_alive_interval(None),
         None => b,
     };
     b.dns_resolver(FixedDns(server)).build()
@@ -2446,6 +2455,61 @@ pub async fn measure_reconnect_after_expiry(valid_s: i64) -> Vec<(String, Value)
     out.push(("same_endpoint_after_expiry".into(), describe(timeout(Duration::from_secs(5), same.connect(&url)).await)));
     let fresh = mk(hash);
     out.push(("fresh_endpoint_after_expiry".into(), describe(timeout(Duration::from_secs(5), fresh.connect(&url)).await)));
+    acc.abort();
+    out
+}
+
+/// C10: the default trust policy is the platform's root store; a certificate that merely appears in a
+/// file named by SSL_CERT_FILE (while the client configuration is built) is not a trusted root.
+/// Must run while no other thread builds configurations (the variable is process-wide).
+pub async fn measure_native_with_env(scratch: &str) -> Vec<(String, Value)> {
+    let mut out = Vec::new();
+    let id = Identity::self_signed(["localhost", "127.0.0.1"]).expect("identity");
+    let pem = format!("{scratch}/env_root.pem");
+    if id.certificate_chain().store_pemfile(&pem).await.is_err() {
+        return out;
+    }
+    let cfg = ServerConfig::builder().with_bind_address("127.0.0.1:0".parse().unwrap()).with_identity(id).build();
+    let Ok(ep) = Endpoint::server(cfg) else { return out };
+    let port = ep.local_addr().unwrap().port();
+    let acc = tokio::spawn(async move {
+        loop {
+            let inc = ep.accept().await;
+            tokio::spawn(async move {
+                if let Ok(req) = inc.await {
+                    if let Ok(c) = req.accept().await {
+                        c.closed().await;
+                    }
+                }
+            });
+        }
+    });
+    let url = format!("https://127.0.0.1:{port}/");
+    for (name, set) in [("plain", false), ("with_ssl_cert_file", true)] {
+        let old = std::env::var_os("SSL_CERT_FILE");
+        if set {
+            std::env::set_var("SSL_CERT_FILE", &pem);
+        }
+        let client = Endpoint::client(
+            ClientConfig::builder().with_bind_address("127.0.0.1:0".parse().unwrap()).with_native_certs().build(),
+        );
+        match old {
+            Some(v) => std::env::set_var("SSL_CERT_FILE", v),
+            None => std::env::remove_var("SSL_CERT_FILE"),
+        }
+        let r = match client {
+            Ok(c) => match timeout(Duration::from_secs(5), c.connect(&url)).await {
+                Ok(Ok(conn)) => {
+                    conn.close(VarInt::from_u32(0), b"");
+                    "ok"
+                }
+                Ok(Err(_)) => "err",
+                Err(_) => "hang",
+            },
+            Err(_) => "noendpoint",
+        };
+        out.push((name.into(), json!(r)));
+    }
     acc.abort();
     out
 }
